@@ -12,6 +12,7 @@ import (
 	sdk "github.com/cosmos/cosmos-sdk/types"
 
 	opchild "github.com/initia-labs/OPinit/x/opchild"
+	opchildkeeper "github.com/initia-labs/OPinit/x/opchild/keeper"
 	opchildtypes "github.com/initia-labs/OPinit/x/opchild/types"
 	ophosttypes "github.com/initia-labs/OPinit/x/ophost/types"
 )
@@ -133,6 +134,46 @@ func (e *L2Env) endBlock() (ExecResult, []abci.ValidatorUpdate) {
 		return nil, err
 	})
 	return r, ups
+}
+
+// valView is what the validator queries of an instance answer, independently of ExportGenesis:
+// the Validators list, Validator(op) for every operator of the universe, the consensus-key
+// index lookup for every key of the universe, and the last-power table.
+func (e *L2Env) valView() string {
+	q := opchildkeeper.NewQuerier(e.K)
+	var sb strings.Builder
+	if resp, err := q.Validators(e.Ctx, &opchildtypes.QueryValidatorsRequest{}); err != nil {
+		sb.WriteString("validators:ERR;")
+	} else {
+		for _, v := range resp.Validators {
+			pk, _ := v.ConsPubKey()
+			va, _ := sdk.ValAddressFromBech32(v.OperatorAddress)
+			fmt.Fprintf(&sb, "v(%d,%d,%d);", e.opID(va), e.keyIDOfBytes(pk.Bytes()), v.ConsPower)
+		}
+	}
+	for i, op := range e.ValOps {
+		resp, err := q.Validator(e.Ctx, &opchildtypes.QueryValidatorRequest{ValidatorAddr: op.String()})
+		if err != nil {
+			fmt.Fprintf(&sb, "op%d:-;", i+1)
+		} else {
+			pk, _ := resp.Validator.ConsPubKey()
+			fmt.Fprintf(&sb, "op%d:(%d,%d);", i+1, e.keyIDOfBytes(pk.Bytes()), resp.Validator.ConsPower)
+		}
+	}
+	for i, k := range e.ValKeys {
+		v, found := e.K.GetValidatorByConsAddr(e.Ctx, sdk.ConsAddress(k.Address()))
+		if !found {
+			fmt.Fprintf(&sb, "key%d:-;", i+1)
+		} else {
+			va, _ := sdk.ValAddressFromBech32(v.OperatorAddress)
+			fmt.Fprintf(&sb, "key%d:%d;", i+1, e.opID(va))
+		}
+	}
+	_ = e.K.IterateLastValidatorPowers(e.Ctx, func(op []byte, power int64) (bool, error) {
+		fmt.Fprintf(&sb, "last(%d,%d);", e.opID(op), power)
+		return false, nil
+	})
+	return sb.String()
 }
 
 func copyL2Foreign(from, to *L2Env) {
@@ -323,6 +364,56 @@ func runC16L2(seed uint64, id int, histLen, probeLen int, boundary, manyVals boo
 		rep.Hist("l2-state:block-boundary")
 	} else {
 		rep.Hist("l2-state:mid-block")
+		if id%2 == 0 { // export directly after accepted AddValidator(s) and a RemoveValidator of a bonded one
+			ps, _ := e.K.GetParams(e.Ctx)
+			vs, _ := e.K.GetAllValidators(e.Ctx)
+			if int(ps.MaxValidators) < len(vs)+2 {
+				ps2 := &L2Params{Admin: ps.Admin, Execs: ps.BridgeExecutors, MaxV: uint64(len(vs) + 2), Hist: uint64(ps.HistoricalEntries), MinGas: c.Params.MinGas, Whitelist: []string{}, HookGas: ps.HookMaxGas}
+				g := gop{Op: L2Op{Kind: "params", Sender: e.Auth, Params: ps2}}
+				sc.register(e.Auth)
+				do(g)
+				ops = append(ops, g)
+			}
+			usedOp, usedKey := map[uint64]bool{}, map[uint64]bool{}
+			var bondedOp uint64
+			for _, v := range vs {
+				va, _ := sdk.ValAddressFromBech32(v.OperatorAddress)
+				pk, _ := v.ConsPubKey()
+				usedOp[e.opID(va)] = true
+				usedKey[e.keyIDOfBytes(pk.Bytes())] = true
+				if lp, err := e.K.GetLastValidatorPower(e.Ctx, va); err == nil && lp > 0 && v.ConsPower > 0 {
+					bondedOp = e.opID(va)
+				}
+			}
+			added := 0
+			want := 1 + sc.R.Intn(2)
+			for o := uint64(1); o <= 5 && added < want; o++ {
+				if usedOp[o] {
+					continue
+				}
+				for k := uint64(1); k <= 5; k++ {
+					if !usedKey[k] {
+						g := gop{Op: L2Op{Kind: "addval", Sender: e.Auth, OpID: o, KeyID: k}}
+						sc.register(e.Auth)
+						if r, _ := do(g); r.OK {
+							added++
+							usedKey[k] = true
+						}
+						ops = append(ops, g)
+						break
+					}
+				}
+			}
+			if bondedOp != 0 {
+				g := gop{Op: L2Op{Kind: "rmval", Sender: e.Auth, OpID: bondedOp}}
+				do(g)
+				ops = append(ops, g)
+				rep.Hist("l2-state:exported-after-remove")
+			}
+			if added > 0 {
+				rep.Hist("l2-state:exported-after-accepted-add")
+			}
+		}
 	}
 	internOff = true
 	hist := make([]string, len(ops))
@@ -432,31 +523,58 @@ func runC16L2(seed uint64, id int, histLen, probeLen int, boundary, manyVals boo
 	if err != nil || !bytes.Equal(json1, json2) {
 		viol(len(ops), "C16:l2-reexport-differs", "export after import differs from the first export", map[string]string{"first": string(json1), "second": string(json2)})
 	}
-	// probes on both instances
-	for i := 0; i < probeLen; i++ {
-		g := sc.c16Step(sc.BridgeID) // generated against the original (live) instance
-		r1, u1 := do(g)
-		var r2 ExecResult
-		var u2 []abci.ValidatorUpdate
-		if g.End {
-			r2, u2 = e3.endBlock()
-		} else {
-			r2 = e3.L2Exec(g.Op)
+	// probes on both instances: first what the validator queries answer, then a fixed sequence
+	// (EndBlocker; add / remove attempts re-using every operator and key of the universe;
+	// EndBlocker), then random steps.  After every probe: result, L2Obs, EndBlocker updates,
+	// the validator queries and the exported genesis of both instances must agree.
+	if v1, v2 := e.valView(), e3.valView(); v1 != v2 {
+		viol(len(ops), "C16:l2-probe-differs", "the validator queries (Validators / Validator / by consensus key / last powers) are answered differently by the re-imported instance",
+			map[string]string{"original": v1, "reimported": v2})
+	} else {
+		sc.register(e.Auth)
+		fixed := []gop{{End: true}}
+		for i := uint64(1); i <= 5; i++ {
+			fixed = append(fixed, gop{Op: L2Op{Kind: "addval", Sender: e.Auth, OpID: i, KeyID: 1 + (i+1)%5}})
 		}
-		o1 := e.L2Obs(c.Track, r1).Coq() + e.updatesOv(u1).Coq()
-		o2 := e3.L2Obs(c.Track, r2).Coq() + e3.updatesOv(u2).Coq()
-		j1, _ := e.Enc.Marshaler.MarshalJSON(e.K.ExportGenesis(e.Ctx))
-		j2, _ := e3.Enc.Marshaler.MarshalJSON(e3.K.ExportGenesis(e3.Ctx))
-		if o1 != o2 || !bytes.Equal(j1, j2) {
-			internOff = true
-			d := map[string]string{"probe": g.Coq(), "original": e.L2Obs(c.Track, r1).Coq() + e.updatesOv(u1).Coq(), "reimported": e3.L2Obs(c.Track, r2).Coq() + e3.updatesOv(u2).Coq(),
-				"err1": r1.Err, "err2": r2.Err, "genesis1": string(j1), "genesis2": string(j2)}
-			internOff = false
-			viol(len(ops)+i, "C16:l2-probe-differs", "a probe message / EndBlocker is answered differently by the re-imported instance", d)
-			break
+		for i := uint64(1); i <= 5; i++ {
+			fixed = append(fixed, gop{Op: L2Op{Kind: "addval", Sender: e.Auth, OpID: 1 + (i+2)%5, KeyID: i}})
+		}
+		fixed = append(fixed, gop{End: true})
+		for i := uint64(1); i <= 5; i++ {
+			fixed = append(fixed, gop{Op: L2Op{Kind: "rmval", Sender: e.Auth, OpID: i}})
+		}
+		fixed = append(fixed, gop{End: true})
+		for i := 0; i < len(fixed)+probeLen; i++ {
+			var g gop
+			if i < len(fixed) {
+				g = fixed[i]
+			} else {
+				g = sc.c16Step(sc.BridgeID) // generated against the original (live) instance
+			}
+			r1, u1 := do(g)
+			var r2 ExecResult
+			var u2 []abci.ValidatorUpdate
+			if g.End {
+				r2, u2 = e3.endBlock()
+			} else {
+				r2 = e3.L2Exec(g.Op)
+			}
+			o1 := e.L2Obs(c.Track, r1).Coq() + e.updatesOv(u1).Coq() + e.valView()
+			o2 := e3.L2Obs(c.Track, r2).Coq() + e3.updatesOv(u2).Coq() + e3.valView()
+			j1, _ := e.Enc.Marshaler.MarshalJSON(e.K.ExportGenesis(e.Ctx))
+			j2, _ := e3.Enc.Marshaler.MarshalJSON(e3.K.ExportGenesis(e3.Ctx))
+			if o1 != o2 || !bytes.Equal(j1, j2) {
+				internOff = true
+				d := map[string]string{"probe": g.Coq(), "original": e.L2Obs(c.Track, r1).Coq() + e.updatesOv(u1).Coq() + e.valView(),
+					"reimported": e3.L2Obs(c.Track, r2).Coq() + e3.updatesOv(u2).Coq() + e3.valView(),
+					"err1": r1.Err, "err2": r2.Err, "genesis1": string(j1), "genesis2": string(j2)}
+				internOff = false
+				viol(len(ops)+i, "C16:l2-probe-differs", "a probe message / EndBlocker / validator query is answered differently by the re-imported instance", d)
+				break
+			}
 		}
 	}
-	rep.Ops += len(ops) + probeLen
+	rep.Ops += len(ops) + probeLen + 18
 	return caseText(upsOv), nontrivial
 }
 
